@@ -1,6 +1,7 @@
 """Obligations about the per-cell build closures, the face-integral loops and the 1D/2D box normalisation,
 taken from the MIR of voronoi.rs / convex_cell.rs (shared by C07, C08, C13, C14, C12)."""
 import json
+import re
 from fractions import Fraction
 
 import z3
@@ -64,9 +65,23 @@ def direct_build_closure(run, funcs, pid, periodic, mask_some):
     st.heap[7] = FR.dimv('ThreeD')
     st.heap[8] = Opaque('simulation_volume')
     st.heap[9] = Agg('Vec', (Agg('FaceMarker', ()),))       # the cell's own face vector (must stay untouched unless constructed)
-    capv = [None] * 7
+    # every capture of the closure as the compiler lists it (debug info): the known ones get the harness values, any further capture a
+    # symbolic value of its own (a vector for names that look like positions / extents, otherwise an opaque value)
+    allcaps = {}
+    for nm_, txt_ in f.debug.items():
+        mm_ = re.search(r'\(\*?_1\)?\.(\d+)', txt_) or re.search(r'_1\.(\d+)', txt_)
+        if mm_:
+            allcaps[nm_] = int(mm_.group(1))
+    ncap = max(list(allcaps.values()) + list(caps.values())) + 1
+    capv = [None] * ncap
     for nm, h in (('mask', 2), ('generators', 3), ('periodic', 4), ('rtree', 5), ('width', 6), ('dimensionality', 7), ('simulation_volume', 8)):
         capv[caps[nm]] = Ref(('H', h))
+    hx = 40
+    for nm_, k_ in allcaps.items():
+        if capv[k_] is None:
+            st.heap[hx] = rvec('cap_' + nm_) if re.search(r'anchor|width|loc|origin|offset|shift', nm_) else Opaque('cap_' + nm_)
+            capv[k_] = Ref(('H', hx))
+            hx += 1
     st.heap[10] = Agg('closure', capv)
     outs = interp.exec_fn(st, name, [Ref(('H', 10)), Agg('tuple', (idx, Ref(('H', 9))))], {})
     run.add_functions(interp, funcs)
